@@ -171,8 +171,15 @@ func (w *World) ledgerProbes(full bool, withIGP bool) []Probe {
 			out = append(out, mk(orbEnc[0], memoM{fmt.Sprintf("%s/fee%d", f, fi), Memo(f, fees), &f, fees}, "channel-0", denomUSDC, "4000", false))
 		}
 	}
-	// (4) Hyperlane token on a mailbox whose required hook charges gas (igp configuration)
+	// (4) Hyperlane token on a mailbox whose required hook charges gas (igp configuration), and the ordinary token with a
+	// gas paymaster named as custom hook
 	if withIGP {
+		for _, f := range []Fwd{
+			{Kind: "hyp", Tag: "hypCustomIGP(maxfee=500uigp)", Domain: 1, Token: w.TokenT0.Bytes(), Recipient: b32(5), Hook: w.IgpI1.Bytes(), GasLimit: "0", MaxFee: "500uigp"},
+			{Kind: "hyp", Tag: "hypCustomIGP(maxfee=5uusdc)", Domain: 1, Token: w.TokenT0.Bytes(), Recipient: b32(5), Hook: w.IgpI1.Bytes(), GasLimit: "0", MaxFee: "5uusdc"}} {
+			f := f
+			out = append(out, mk(orbEnc[0], memoM{fmt.Sprintf("%s/fee0", f), Memo(f, nil), &f, nil}, "channel-0", denomUSDC, "4000", false))
+		}
 		for _, mf := range []string{"0uusdc", "5uusdc", "500uigp"} {
 			f := w.FwdHypIGP(mf)
 			out = append(out, mk(orbEnc[0], memoM{fmt.Sprintf("%s/fee0", f), Memo(f, nil), &f, nil}, "channel-0", denomUSDC, "4000", false))
